@@ -36,7 +36,9 @@ def check_fold(project: Project, rep, weight, kernel, sigma, skew):
     sums = [x for x in sym.walk(e) if x[0] == "sum" and x[2] == ("rows", "X")]
     loops = [ev for ev in I.log if ev["kind"] == "loop"]  # in _transform or in a helper it delegates to
     accs = [(ev, n, c) for ev in loops for n, c in ev["carried"].items() if c.get("kind") == "fold"]
-    if not accs:
+    nested = any(len(ev.get("loops") or ()) > 0 for ev, _, _ in accs) or len({id(ev) for ev, _, _ in accs}) > 1
+    if not accs or nested:
+        # no single accumulation loop over the points (none at all, or loops inside loops: blocks of points, helpers):
         # no accumulation loop: decide on the value itself — a linear combination of Σ over the points whose bodies read
         # the point being summed only is additive all the same (vectorised form)
         terms, const = sym.lin_parts(e)
